@@ -2,8 +2,8 @@ CONSTANTS
   Trees <- TreesH
   Chunks = 2
   LockChunks = 2
-  TaskArgs <- TaskArgsDef
-  OpsIds <- Ops2
+  TaskArgs <- TaskArgsSmall
+  OpsIds <- Ops1
   MaxCrash = 0
   MaxCreate = 2
   MaxHist = 2
